@@ -711,6 +711,65 @@ func c16Engine(env *Env, rep *Report) {
 		rep.Count("engine_isolation_shared_option")
 	}
 	propertyPerRequest(env, rep, "C16-engine", "C16-isolation")
+	// values stored and read on a boundary event's exception flow (the token that waits at the boundary event is made
+	// by the activity's harness): a task result stored there, a condition reading it, a data object
+	for _, intr := range []bool{true, false} {
+		cs := fmt.Sprintf("task results and a condition on the exception flow of a boundary event (interrupting=%v)", intr)
+		env.Current(cs)
+		q := &Prog{}
+		q.Node("start", "start")
+		q.Node("task", "H")
+		q.Node("end", "end")
+		q.Flow("start", "H", "")
+		q.Flow("H", "end", "")
+		b := q.Node("boundary", "B0")
+		b.Attrs = fmt.Sprintf(`attachedToRef="H" cancelActivity="%v"`, intr)
+		b.Inner = `<bpmn:signalEventDefinition id="bd0" signalRef="s0"/>`
+		x := q.Node("task", "X")
+		x.Results = []string{"r", "o"}
+		q.Flow("B0", "X", "")
+		g := q.Node("xor", "G")
+		q.Flow("X", "G", "")
+		q.Node("task", "Y")
+		q.Node("task", "Z")
+		q.Flow("G", "Y", "r == 5")
+		g.Default = q.Flow("G", "Z", "").ID
+		q.Node("end", "eY")
+		q.Node("end", "eZ")
+		q.Flow("Y", "eY", "")
+		q.Flow("Z", "eZ", "")
+		defs, err := ParseDefs(q.XML(`<bpmn:signal id="s0" name="s0"/>`))
+		must(err)
+		in, err := StartInst(defs, InstOpt{Vars: map[string]any{"r": 0}})
+		must(err)
+		rep.Evaluations++
+		rep.Nontrivial++
+		rep.Count("engine_exception_flow")
+		if !in.WaitUntil(tmoStep, func(l []Ev) bool { return countEv(l, "task", "H") >= 1 && countEv(l, "listening", "B0") >= 1 }) {
+			rep.Violate("C16-engine", cs, "H not requested with its boundary event listening: "+logString(in.Log()))
+			in.Close()
+			continue
+		}
+		in.Signal("s0")
+		obj := map[string]any{"k": "v", "n": []any{int64(1), "two"}}
+		if !in.Answer("X", tmoStep, bpmn.DoWithResults(map[string]any{"r": 5, "o": obj})) {
+			rep.Violate("C16-engine", cs, "the task on the exception flow was not requested: "+logString(in.Log()))
+			in.Close()
+			continue
+		}
+		if !in.WaitUntil(tmoStep, func(l []Ev) bool { return countEv(l, "task", "Y")+countEv(l, "task", "Z") >= 1 }) {
+			rep.Violate("C16-engine", cs, "after the result r = 5 was stored, the gateway behind routed the token nowhere: "+logString(in.Log()))
+		} else if countEv(in.Log(), "task", "Y") != 1 {
+			rep.Violate("C16-engine", cs, "the condition r == 5 on the exception flow did not see the stored result: "+logString(in.Log()))
+		}
+		if v, ok := in.P.Locator().GetVariable("r"); !ok || !c16Same(int64(5), v) {
+			rep.Violate("C16-engine", cs, fmt.Sprintf("result r stored on the exception flow reads back %#v (present %v)", v, ok))
+		}
+		if v, ok := in.P.Locator().GetVariable("o"); !ok || !c16Same(obj, v) {
+			rep.Violate("C16-engine", cs, fmt.Sprintf("result o stored on the exception flow reads back %#v (present %v)", v, ok))
+		}
+		in.Close()
+	}
 	// every task result is stored, also when two tokens wait in one task and are answered at the same time with
 	// different results: each answer's values must be readable afterwards, unchanged
 	for round := 0; round < 12 && !rep.Saturated(); round++ {
